@@ -220,10 +220,13 @@ impl<W: 'static, R: 'static, T: 'static> XGenerator<W, R, T> {
             }),
             Self::Repeat(gen) => either_i({
                 let gen = to_native!(gen, Self);
+                // a pass that yields nothing ends the repetition (repeating an empty generator is empty, not a busy loop)
                 iter::repeat_with(move || {
                     let inner: BIter<_, _, _> = Box::new(gen._iter(ns, rt.clone()));
-                    inner
+                    let mut inner = inner.peekable();
+                    inner.peek().is_some().then_some(inner)
                 })
+                .map_while(|pass| pass)
                 .flatten()
             }),
             Self::TakeWhile(gen, func) => either_j({
